@@ -3,6 +3,7 @@ the enumerated timelines through the real YAML loader on synthetic parameter dir
 let TLC (Trace_Timeline) validate what the loader returned."""
 from __future__ import annotations
 
+import os
 import datetime
 import shutil
 from pathlib import Path
@@ -62,7 +63,7 @@ def run_abstract(chk, quick, rnd):
     import c07
     from _gettsim.policy_environment import _load_parameter_group_from_yaml
 
-    cfg = tlc.SPEC_DIR / "_gen_tl.cfg"
+    cfg = tlc.SPEC_DIR / f"_gen_tl_{os.getpid()}.cfg"
     cfg.write_text(
         f"CONSTANTS\n  MaxP = 2\n  MaxQ = {1 if quick else 2}\nSPECIFICATION Spec\nINVARIANT ConstantBetweenChangeDays\nINVARIANT NoError\nINVARIANT AbsentBeforeFirst\nCHECK_DEADLOCK FALSE\n"
     )
